@@ -1176,6 +1176,8 @@ class SQLModel:
                 )
                 for k in excess_sub_declared_keys:
                     del subsql.declared_term_dependencies[k]
+                # the step now computes this extend: key it as the step this extend would have been
+                subsql.ops_key = f"extend({extend_node}, {terms.keys()})"
                 return subsql
         view_name = "extend_" + str(temp_id_source[0])
         temp_id_source[0] = temp_id_source[0] + 1
